@@ -40,6 +40,7 @@ class FileIO:
         s.phs = list(phs or [])     # real placeholders  $k
         s.iphs = list(iphs or [])   # integer placeholders @k
         s.facet = None; s.log = []
+        s.fullwidth = set()   # printed field widths at which a real is rendered as a token filling the whole field (no leading blank)
     # ---------- helpers ----------
     def _facet(s, it):
         if s.facet is None or s.facet[0] is not it:
@@ -109,6 +110,7 @@ class FileIO:
     def _tok_real(s, v, width=0):
         s.phs.append(v if is_sym(v) else z3.RealVal(Fraction(v)))
         t = '$%d' % (len(s.phs) - 1)
+        if width > len(t) and width in s.fullwidth: t = '$' + '0' * (width - len(t)) + t[1:]
         if width > len(t): t = ' ' * (width - len(t)) + t
         return list(t.encode())
     def _tok_int(s, v, width=0, left=False):
